@@ -11,6 +11,7 @@ use super::*;
 use crate::handles::*;
 use crate::variant::*;
 
+#[cfg_attr(feature = "hsivonen_encoding_rs_verif", derive(Debug, Clone, PartialEq, Eq, Hash))]
 pub struct Utf16Decoder {
     lead_surrogate: u16, // If non-zero and pending_bmp == false, a pending lead surrogate
     lead_byte: Option<u8>,
